@@ -44,7 +44,7 @@ RULE = ("history = <= max_ops seeded operations over 1-2 images (style per termi
         "step of each kind raises, and the temp-file write fails; non-trivial = the history "
         "contains a fault, an early close, an abandoned iterator or a failed construction; "
         "distinct = hash of (history, fault)")
-PROBES = ["url_404", "url_garbage_body", "url_connection_error", "url_image_open",
+PROBES = ["image_size_changed_mid_iteration", "url_404", "url_garbage_body", "url_connection_error", "url_image_open",
           "iterator_abandoned_and_collected", "iterator_closed_early", "iterator_exhausted",
           "fault_in_convert", "fault_in_resize", "fault_in_save", "fault_in_seek",
           "fault_in_open", "caller_pil_image_survives", "animated_draw_keeps_tell",
@@ -90,7 +90,22 @@ class PilSeams:
             w.__name__ = name
             self.saved.append((owner, name, orig))
             setattr(owner, name, w)
-        wrap(Image, "open", "open")
+        orig_open = Image.open
+        me.opened = []
+
+        def open_(*a, **kw):
+            if me.suspended:
+                return orig_open(*a, **kw)
+            k.seam("pil.open")
+            img = orig_open(*a, **kw)
+            # NOTE: the harness deliberately keeps NO reference to images the library opens:
+            # the observable of the property is the open-file count, and the unchanged library
+            # leaves several paths (iterator closed before its first frame, the iterator built
+            # by an animated draw, failures in seek) to reference counting. Holding the images
+            # alive would turn every one of those into an alarm.
+            return img
+        self.saved.append((Image, "open", orig_open))
+        Image.open = open_
         wrap(Image, "new", "new")
         wrap(Image, "frombytes", "frombytes")
         for meth in ("convert", "resize", "save", "tobytes", "seek", "alpha_composite"):
@@ -143,6 +158,16 @@ class FakeRequests:
             import requests
             raise requests.exceptions.ConnectionError("simulated: connection refused")
         return FakeResponse(r[0], r[1])
+
+
+def pil_is_open(img):
+    for fp in (getattr(img, "fp", None), getattr(img, "_fp", None)):
+        try:
+            if fp is not None and not fp.closed:
+                return True
+        except Exception:  # PIL's DeferredError placeholder after close()
+            pass
+    return False
 
 
 def fd_count():
@@ -219,8 +244,8 @@ def run(ch, ctx, fault=None):
                     check(not getattr(p_, "_verif_closed_by_library", False),
                           "caller_supplied_pil_image_was_closed",
                           {"after": desc, "kind": d_["kind"], "fault": fault}, site)
-            exp = baseline + harness_open() + sum(1 for it in iters
-                                                  if it["entitled"] and not it["closed"])
+            entitled = sum(1 for it in iters if it["entitled"] and not it["closed"])
+            exp = baseline + harness_open() + entitled
             got = fd_count()
             if got != exp:
                 gc.collect()
@@ -261,7 +286,10 @@ def run(ch, ctx, fault=None):
                 images.still_bytes(sw, sh, mode)
             kind = ch.pick("srckind", ("file", "pil_file", "pil_mem", "url", "url"))
             kw = {}
-            sizing = ch.pick("sizing", ("fit", "width", "both"))
+            sizing = ch.pick("sizing", ("fit", "width", "both", "dynamic"))
+            dyn_member = None
+            if sizing == "dynamic":
+                dyn_member = ch.pick("dynmember", ("AUTO", "ORIGINAL", "FIT_TO_WIDTH"))
             if sizing == "width":
                 kw = {"width": ch.int("iw", 1, min(8, cols))}
             elif sizing == "both":
@@ -304,6 +332,9 @@ def run(ch, ctx, fault=None):
                 pil.suspended = 0
             if kind == "url":
                 ctx.probe("url_image_open")
+            if dyn_member:
+                img.size = getattr(ti_image.Size, dyn_member)
+                desc += " size=Size.%s" % dyn_member
             d["image"] = img
             d["size0"] = img.size
             d["desc"] = desc
@@ -322,7 +353,7 @@ def run(ch, ctx, fault=None):
             choices_ = [(3 if len(imgs) < 2 else 0, "construct")]
             if imgs:
                 choices_ += [(2, "str"), (2, "format"), (2, "draw"), (3, "iterate"), (1, "nframes"),
-                             (1, "imgseek"), (1, "imgclose"), (1, "with")]
+                             (1, "imgseek"), (1, "imgclose"), (1, "with"), (2, "setsize")]
             if iters:
                 choices_ += [(9, "next"), (3, "seek"), (2, "itclose"), (2, "abandon")]
             op = ch.weighted("op", [c for c in choices_ if c[0]])
@@ -382,6 +413,26 @@ def run(ch, ctx, fault=None):
                                   "closed": False, "spec": spec, "pos": 0, "repeat": repeat,
                                   "pass": 0, "desc": desc, "started": False})
                     del it
+                elif op == "setsize":
+                    if d["image"].closed:
+                        continue
+                    kind_ = ch.pick("szk", ("width", "both", "member"))
+                    if kind_ == "width":
+                        v = ch.int("nw", 1, min(8, cols))
+                        d["image"].set_size(width=v)
+                        desc = "%s.set_size(width=%d)" % (d["desc"], v)
+                    elif kind_ == "both":
+                        v = (ch.int("nw", 1, min(8, cols)), ch.int("nh", 1, 4))
+                        d["image"].set_size(*v)
+                        desc = "%s.set_size%s" % (d["desc"], v)
+                    else:
+                        mname = ch.pick("mname", ("FIT", "AUTO", "ORIGINAL", "FIT_TO_WIDTH"))
+                        d["image"].size = getattr(ti_image.Size, mname)
+                        desc = "%s.size = Size.%s" % (d["desc"], mname)
+                    d["size0"] = d["image"].size
+                    if "twin" in d:
+                        d["twin"].size = d["image"].size
+                    ctx.probe("image_size_changed_mid_iteration")
                 elif op == "nframes":
                     desc = "%s.n_frames" % d["desc"]
                     if not d["image"].closed:
@@ -512,6 +563,18 @@ def run(ch, ctx, fault=None):
             ctx.op("%s%s" % (desc, " -> raised %r" % (exc,) if exc is not None else ""))
             key.append((desc, type(exc).__name__ if exc is not None else None))
             if exc is not None:
+                if fault_here and fault["kind"] in ("pil.convert", "pil.resize"):
+                    # the conversion / resize step closes what it was working on itself
+                    # (try/finally in the library): that must not wait for the caller to drop
+                    # the exception - `exc` and its traceback are still alive here
+                    entitled_now = sum(1 for it in iters if it["entitled"] and not it["closed"]
+                                       and it is not itd)
+                    got_now = fd_count()
+                    hi = baseline + harness_open() + entitled_now + (
+                        1 if itd is not None and itd["entitled"] else 0)
+                    check(got_now <= hi, "image_file_left_open_by_failed_conversion_step",
+                          {"op": desc, "open_files": got_now, "allowed": hi, "fault": fault},
+                          site)
                 name = type(exc).__name__
                 legit = False
                 if op == "construct" and not fault_here:
